@@ -340,9 +340,16 @@ impl<F: PathFetcher> PathSet<F> {
     }
 
     pub fn next_maintain(&self, now: SystemTime) -> Duration {
+        let mut next = std::cmp::min(self.internal.next_refetch, self.internal.next_idle_check);
+
+        // Also wake up when the active path expires, so it is replaced (or cleared) right away
+        // and never handed out expired.
+        if let Some(active_expiry) = self.active_path_expiry() {
+            next = next.min(active_expiry);
+        }
+
         // If time is in the past, tick immediately
-        std::cmp::min(self.internal.next_refetch, self.internal.next_idle_check)
-            .duration_since(now)
+        next.duration_since(now)
             .unwrap_or_else(|_| Duration::from_secs(0))
     }
 
@@ -360,9 +367,25 @@ impl<F: PathFetcher> PathSet<F> {
 
         if now >= self.internal.next_refetch {
             self.fetch_and_update(now, manager).await;
+        } else if self
+            .active_path_expiry()
+            .is_some_and(|expiry| now >= expiry)
+        {
+            // The active path expired before the next refetch is due (e.g. while backing off
+            // after failed refetches): drop expired paths and fall over to the best remaining one.
+            self.update_path_cache(vec![], now, manager);
+            self.rerank(now, manager);
+            self.maybe_update_active_path(now, manager);
         }
 
         None
+    }
+
+    /// Returns the expiry time of the active path, if there is one.
+    fn active_path_expiry(&self) -> Option<SystemTime> {
+        let active_path_guard = self.shared.active_path.load();
+        let expiry = active_path_guard.as_ref()?.0.expiration()?;
+        Some(SystemTime::UNIX_EPOCH + Duration::from_secs(u64::from(expiry)))
     }
 }
 
@@ -432,8 +455,8 @@ impl<F: PathFetcher> PathSet<F> {
         let result = path_fetch.await;
         #[cfg(feature = "verif-hooks")]
         crate::verif::yield_point("f.after_fetch").await;
-        match result {
-            // Successful fetch and ingestion, at least one path available
+        // Ingest the fetched paths (if any) into the path cache
+        let result = match result {
             Ok(fetched_paths) => {
                 debug_assert!(
                     !fetched_paths.is_empty(),
@@ -441,10 +464,20 @@ impl<F: PathFetcher> PathSet<F> {
                 );
 
                 self.update_path_cache(fetched_paths, now, manager);
-                let earliest_expiry = self
-                    .earliest_expiry()
-                    .expect("should have a path available, as new paths were ingested");
+                // All fetched paths might already be expired and have been dropped again, which
+                // is the same as not having found any path.
+                self.earliest_expiry().ok_or(PathFetchError::NoPathsFound)
+            }
+            Err(e) => {
+                // Maintain path cache with no new paths
+                self.update_path_cache(vec![], now, manager);
+                Err(e)
+            }
+        };
 
+        match result {
+            // Successful fetch and ingestion, at least one path available
+            Ok(earliest_expiry) => {
                 // Reset error state
                 self.shared.sync.lock().unwrap().current_error = None;
                 self.internal.failed_attempts = 0;
@@ -457,9 +490,6 @@ impl<F: PathFetcher> PathSet<F> {
             }
             // Failed to fetch, might have no paths available
             Err(e) => {
-                // Maintain path cache with no new paths
-                self.update_path_cache(vec![], now, manager);
-
                 self.internal.failed_attempts += 1;
                 // Schedule next refetch after a delay
                 self.internal.next_refetch = now
@@ -800,20 +830,21 @@ impl<F: PathFetcher> PathSet<F> {
     ///
     /// Expects paths to be ranked already
     fn best_path(&self, now: SystemTime) -> Option<&PathManagerPath> {
-        let path_iter = self.internal.cached_paths.iter();
+        let expiry_state =
+            |path: &PathManagerPath| check_path_expiry(&path.path, now, self.config.min_expiry_threshold);
 
-        for path in path_iter {
-            // Only consider paths that are not near expiry
-            if check_path_expiry(&path.path, now, self.config.min_expiry_threshold)
-                != ExpiryState::Valid
-            {
-                continue;
-            }
-
-            return Some(path);
-        }
-
-        None
+        self.internal
+            .cached_paths
+            .iter()
+            // Prefer paths that are not near expiry
+            .find(|path| expiry_state(path) == ExpiryState::Valid)
+            // But a path near its expiry is still better than leaving the sender without a path
+            .or_else(|| {
+                self.internal
+                    .cached_paths
+                    .iter()
+                    .find(|path| expiry_state(path) == ExpiryState::NearExpiry)
+            })
     }
 
     /// Returns the entry of the current active path
@@ -926,6 +957,26 @@ impl PathSetHandle {
             .store(true, std::sync::atomic::Ordering::Relaxed);
 
         self.shared.active_path.load()
+    }
+
+    /// Returns `path` unless it is expired at `now`.
+    ///
+    /// The worker replaces the active path when it expires, but it may be late; a path is never
+    /// handed to a sender after its expiry.
+    pub fn unless_expired(path: ScionPath, now: SystemTime) -> Option<ScionPath> {
+        let timestamp = now
+            .duration_since(SystemTime::UNIX_EPOCH)
+            .unwrap_or_default()
+            .as_secs() as u32;
+
+        (!path.is_expired(timestamp).unwrap_or(false)).then_some(path)
+    }
+
+    /// Tries to get the currently active path without awaiting ongoing updates, leaving out a path
+    /// that is expired at `now`.
+    pub fn try_unexpired_active_path(&self, now: SystemTime) -> Option<ScionPath> {
+        let active = self.try_active_path().as_deref().map(|p| p.0.clone())?;
+        Self::unless_expired(active, now)
     }
 
     /// Gets the currently active path, awaiting ongoing updates if necessary.
